@@ -21,7 +21,7 @@ ID = 'C15'
 LEVEL = 'exploration'
 RULE = ('systems x = a*LAG_x + c*LAG_y + b (+ 0.1*t), y = a2*LAG_y + b2 with (a,c) in {0,.5,.9,1,-.5,-1,1.05}^2, b in '
         '{0,1,-1,10,-10}, initial values in {0,5,-5}, read-outs z=-x (decorative) and al=x (alias), exogenous shift g; x search horizon '
-        '{3,20,200} x tolerance {1e-4,1e-3} x excluded list {default, +z (a read-out nothing depends on)}; oracle: after acceptance one more SolveStep with exogenous '
+        '{1,2,3,20,200} x tolerance {1e-4,1e-3} x excluded list {default, +z (a read-out nothing depends on)}; oracle: after acceptance one more SolveStep with exogenous '
         'frozen at k=0 moves every non-excluded variable by <= 2 tol (absolute or relative; violated only if both >= 20 tol), rejection is '
         'NoEquilibriumError/ValueError, Parser lists / exogenous series / MaxTime deep-equal to the snapshot; non-trivial = accepted searches')
 ASSUMPTIONS = [
@@ -29,8 +29,8 @@ ASSUMPTIONS = [
     'either the absolute or the relative measure may be used by the implementation (the weaker is demanded)',
     'only variables nothing else depends on are put on the excluded list (an excluded variable is not installed at k=0, so anything reading it is outside the guarantee)',
 ]
-BOUNDS = {'quick': {'two_state_horizons': [3, 20], 'one_state_horizons': [3, 20, 200]},
-          'thorough': {'two_state_horizons': [3, 20, 200], 'one_state_horizons': [3, 20, 200]}}
+BOUNDS = {'quick': {'two_state_horizons': [1, 2, 3, 20], 'one_state_horizons': [1, 2, 3, 20, 200]},
+          'thorough': {'two_state_horizons': [1, 2, 3, 20, 200], 'one_state_horizons': [1, 2, 3, 5, 20, 200]}}
 
 AC = [0., .5, .9, 1., -.5, -1., 1.05]
 BS = [0., 1., -1., 10., -10.]
